@@ -65,6 +65,9 @@ def command(ctx, d, front, mode, spelling):
 def start(ctx, d, tag, front, mode, spelling, gate=None):
     scp = scenario(d, tag, gate)
     env = dict(os.environ, HOME=d, SIMULATE_ROUTER='python3 %s %s' % (S.SIM, scp), TEST_TIME='2024-Sep-29 16:19:50')
+    # garbage collection is part of the schedule: with GOGC=1 the Go runtime collects (and runs finalizers, e.g. of a
+    # lock file handle that is no longer referenced) all the time instead of once a session is some megabytes old
+    env['GOGC'] = '1'
     return subprocess.Popen(command(ctx, d, front, mode, spelling), cwd=d, env=env, stdout=subprocess.PIPE, stderr=subprocess.PIPE,
                             start_new_session=True)
 
